@@ -547,7 +547,18 @@ def _accumulation_core(ctx):
     xs = [st for st in walk_function(f.node) if isinstance(st, ast.Assign) and isinstance(st.value, ast.Call) and
           call_name(st.value) == "np.where" and len(st.value.args) == 3 and isinstance(st.value.args[0], ast.Compare) and
           const_value(st.value.args[0].comparators[0]) == 0]
+    # both pass sums are sums of the per-hysteresis damage column D (which carries the 1/2 of half hystereses)
+    allsums = [st for st in walk_function(f.node) if isinstance(st, ast.Assign) and isinstance(st.targets[0], ast.Name) and
+               isinstance(st.value, ast.Call) and isinstance(st.value.func, ast.Attribute) and st.value.func.attr == "sum" and
+               _run_filter(st.value)]
+    for st in allsums:
+        if st.targets[0].id not in sums:
+            ctx.violated(f, st, "the damage sum of pass %s is %s, not the sum of the per-hysteresis damage column D: half "
+                         "hystereses of that pass are not counted with 1/2 as everywhere else" %
+                         (sorted(_run_filter(st.value)), norm_text(st.value)[:120]), text="pass sum not from D")
     if len(xs) != 1 or set(sums.values()) != {1, 2}:
+        if any(st.targets[0].id not in sums for st in allsums):
+            return
         raise AnalysisError("lifetime_n_times_load_sequence: damage sums of pass 1/2 or the x formula not found")
     d1 = next(k for k, v in sums.items() if v == 1)
     d2 = next(k for k, v in sums.items() if v == 2)
@@ -653,6 +664,17 @@ LP = "src/pylife/strength/fkm_load_distribution.py"
 
 def variants():
     out = []
+
+    def pass2_full(tree):
+        f = find_func(tree, "DamageCalculatorPRAM.lifetime_n_times_load_sequence")
+        for st in ast.walk(f):
+            if isinstance(st, ast.Assign) and isinstance(st.targets[0], ast.Name) and "run_index" in ast.unparse(st.value) and \
+                    "== 2" in ast.unparse(st.value) and ".sum()" in ast.unparse(st.value):
+                st.value = parse_expr("(1 / self._collective.loc[self._collective['run_index'] == 2, 'N'])"
+                                      ".groupby('assessment_point_index').sum()")
+                return True
+        return False
+    out.append(witness("pass-2 damage summed as 1/N (half hystereses count fully)", DCP, pass2_full, "R-C09-6"))
 
     def table_E(tree):
         f = find_func(tree, "P_RAM._compute_values")
